@@ -236,8 +236,8 @@ func c19CheckInvalidated(o *world.Obs, r *Result, ex *world.Exchange, target str
 						}
 						reach = append(reach, idxKey)
 					}
-				case "delete":
-					reach = nil
+				case "delete", "ext-delete":
+					reach = nil // (an index removed behind the cache's back makes its entries unreachable; no invalidation did)
 				}
 			}
 		}
